@@ -432,6 +432,8 @@ enum WOut {
     Panic,
     Crash(String),
     Timeout,
+    /// not run: the batch had already produced enough abnormal terminations
+    Skipped,
 }
 
 impl Worker {
@@ -541,7 +543,13 @@ impl Pool {
     /// abnormal termination is attributed to the first line without a reply and the rest is re-sent
     fn run_batch(&mut self, lines: &[String], timeout: Duration) -> Vec<WOut> {
         let mut out: Vec<WOut> = Vec::with_capacity(lines.len());
+        let mut failures = 0usize;
         while out.len() < lines.len() {
+            if failures >= 3 {
+                // every further hang costs seconds; the property is decided, the rest is reported as skipped
+                out.push(WOut::Skipped);
+                continue;
+            }
             if self.w.is_none() {
                 self.w = Some(Worker::spawn());
             }
@@ -587,6 +595,7 @@ impl Pool {
             if let Some(f) = failure {
                 self.w = None;
                 self.restarts += 1;
+                failures += 1;
                 out.push(f); // the line being processed when the worker stopped answering
             } else if !wrote {
                 self.w = None;
@@ -991,7 +1000,7 @@ fn main() {
             WOut::TooLong(_) => "parse_too_long",
             WOut::Panic => "parse_panic",
             WOut::Crash(_) => "parse_crash",
-            WOut::Timeout => "parse_timeout",
+            WOut::Timeout | WOut::Skipped => "parse_timeout",
         });
         match &o {
             WOut::Ok(ms) | WOut::Err(ms) | WOut::TooDeep(ms) | WOut::TooLong(ms) => slowest = slowest.max(*ms),
@@ -1024,7 +1033,7 @@ fn main() {
                     WOut::TooLong(_) => "too_long",
                     WOut::Panic => "panic",
                     WOut::Crash(_) => "crash",
-                    WOut::Timeout => "timeout",
+                    WOut::Timeout | WOut::Skipped => "timeout",
                 }
             ));
             match &o {
@@ -1080,7 +1089,7 @@ fn main() {
                     WOut::TooLong(_) => "too_long",
                         WOut::Panic => "panic",
                         WOut::Crash(_) => "crash",
-                        WOut::Timeout => "timeout",
+                        WOut::Timeout | WOut::Skipped => "timeout",
                     }
                 ));
                 rep.count(&format!("tower_depth_{}", n));
@@ -1124,7 +1133,7 @@ fn main() {
                     WOut::TooLong(_) => "too_long",
                     WOut::Panic => "panic",
                     WOut::Crash(_) => "crash",
-                    WOut::Timeout => "timeout",
+                    WOut::Timeout | WOut::Skipped => "timeout",
                 }
             ));
             rep.count(&format!("chain_length_{}", n));
@@ -1213,6 +1222,10 @@ fn main() {
             let lines: Vec<String> = part.iter().map(|(v, _)| sx::hex_str(v).replace('-', "")).collect();
             let outs = pool.run_batch(&lines, Duration::from_secs(2));
             for ((v, kind), o) in part.iter().zip(outs.iter()) {
+                if *o == WOut::Skipped {
+                    rep.count("cases_skipped_after_abnormal_terminations_in_a_batch");
+                    continue;
+                }
                 rep.case(&format!("type {}", v), true);
                 rep.count(&format!("datatype_{}", kind));
                 rep.count(match o {
